@@ -1,11 +1,13 @@
 package main
 
 import (
+	"errors"
 	"fmt"
 	"strings"
 	"sync"
 
 	"github.com/ozanh/ugo"
+	"github.com/ozanh/ugo/parser"
 	ufmt "github.com/ozanh/ugo/stdlib/fmt"
 	ujson "github.com/ozanh/ugo/stdlib/json"
 	ustrings "github.com/ozanh/ugo/stdlib/strings"
@@ -18,10 +20,38 @@ func moduleMapAll(srcMods []*Sexp) *ugo.ModuleMap {
 	mm.AddBuiltinModule("strings", ustrings.Module)
 	mm.AddBuiltinModule("fmt", ufmt.Module)
 	mm.AddBuiltinModule("json", ujson.Module)
+	mm.AddBuiltinModule("emod", emodAttrs())
 	for i, a := range srcMods {
 		mm.AddSourceModule(fmt.Sprintf("m%d", i+1), atomBytes(a))
 	}
 	return mm
+}
+
+// emod is a builtin module whose values are error objects, alone and inside every container kind:
+// the error of a failed run the host kept (a runtime error whose trace slice has spare capacity,
+// as append leaves it) and a plain error. Every VM must get its own copy of them.
+func emodAttrs() map[string]ugo.Object {
+	mk := func() *ugo.RuntimeError {
+		bc, err := ugo.Compile([]byte(strings.Repeat("// start-up script\n", 30)+"f := func() { throw error(\"start-up failed\") }\ng := func() { f() }\ng()\n"), ugo.CompilerOptions{})
+		if err != nil {
+			panic(err)
+		}
+		_, err = ugo.NewVM(bc).Run(nil)
+		var re *ugo.RuntimeError
+		if !errors.As(err, &re) {
+			panic("runtime error expected")
+		}
+		tr := make([]parser.Pos, len(re.Trace), len(re.Trace)+2)
+		copy(tr, re.Trace)
+		re.Trace = tr
+		return re
+	}
+	return map[string]ugo.Object{
+		"rerr": mk(),
+		"err":  &ugo.Error{Name: "hostError", Message: "kept by the host"},
+		"box":  ugo.Map{"rerr": mk(), "arr": ugo.Array{mk(), &ugo.Error{Name: "e2", Message: "in array"}}},
+		"sm":   &ugo.SyncMap{Value: ugo.Map{"rerr": mk()}},
+	}
 }
 
 func concGlobals() ugo.Map {
